@@ -14,7 +14,6 @@ import (
 	"context"
 	"crypto/sha256"
 	"encoding/hex"
-	"encoding/json"
 	"errors"
 	"fmt"
 	"math/rand"
@@ -544,7 +543,13 @@ func (m *mmRun) oneBase(kind string, bi int, base item, altSeed, multiSeed int64
 				so := one.sign()
 				do, err := one.delivered()
 				if err == nil && so.ok() && !sameBytes(do, db) && sameBytes(so.Bz, sb.Bz) {
-					own = append(own, mu.Path)
+					dup := false
+					for _, o := range own {
+						dup = dup || o == mu.Path
+					}
+					if !dup {
+						own = append(own, mu.Path)
+					}
 				}
 			}
 			if len(own) > 0 {
@@ -558,7 +563,3 @@ func (m *mmRun) oneBase(kind string, bi int, base item, altSeed, multiSeed int64
 	}
 }
 
-func jsonStr(v any) string {
-	b, _ := json.Marshal(v)
-	return string(b)
-}
